@@ -12,6 +12,9 @@ Shape B.  Families of shards:
 * ``w``      -- all W arrays of <= 3 items from an 8-item pool x DW x {Identity-H, 90ms-RKSJ-H}; W2/DW2 x vertical CMaps.
 * ``ttf``    -- embedded TrueType cmap tables (formats 0, 4, 12; platform filtering) under Adobe-Identity.
 * ``coll``   -- predefined CMap + character collection wiring through a document; odd-length identity strings.
+* ``tj``     -- every TJ array of <= 4 elements over {two-glyph string, one-glyph string, +250, -500} followed by
+               another TJ and a Tj, for vertical and horizontal composite fonts with default and explicit metrics:
+               pen displacement (w - Tj/1000) * Tfs along the writing direction, the other coordinate unchanged.
 * ``one``    -- several composite fonts in one document, one fresh process per case: an -H and a -V font of one
                collection in both load orders (same page / two pages); two Type0 fonts sharing one descendant
                CIDFont, one with ToUnicode and one without, in every load order.
@@ -37,8 +40,8 @@ SEG_BYTES = [0x00, 0x20, 0x41, 0x7F, 0x80, 0x81, 0x8E, 0xA1, 0xE0, 0xFE, 0xFF]
 SEG_BYTES_X = SEG_BYTES + [0x30, 0x40, 0x8F, 0xC4, 0xF0]
 
 BOUNDS = {
-    "quick": {"seg_len": 3, "seg_alphabet": 11, "tou_entries": 3, "w_items": 3, "vertical_codec": False},
-    "thorough": {"seg_len": 4, "seg_alphabet": 16, "tou_entries": 4, "w_items": 4, "vertical_codec": True},
+    "quick": {"seg_len": 3, "seg_alphabet": 11, "tou_entries": 3, "w_items": 3, "tj_elements": 4, "vertical_codec": False},
+    "thorough": {"seg_len": 4, "seg_alphabet": 16, "tou_entries": 4, "w_items": 4, "tj_elements": 5, "vertical_codec": True},
 }
 
 META = {
@@ -373,7 +376,9 @@ def encoding_obj(doc: Doc, enc: str, spelling: str) -> Any:
 
 
 def type0_doc(enc: str, strings: Sequence[bytes], ros=("Adobe", "Identity", 0), tou: Optional[bytes] = None, extra: Optional[Dict[str, Any]] = None,
-              ff2: Optional[bytes] = None, sub: str = "CIDFontType2", enc_spelling: str = "name", doc: Optional[Doc] = None) -> bytes:
+              ff2: Optional[bytes] = None, sub: str = "CIDFontType2", enc_spelling: str = "name", doc: Optional[Doc] = None,
+              show_ops: Optional[bytes] = None) -> bytes:
+    """``show_ops`` replaces the default ``<..> Tj`` sequence (text-showing operators only, inside BT .. ET)."""
     doc = doc or Doc()
     d: Dict[str, Any] = {
         "Type": N("Font"), "Subtype": N(sub), "BaseFont": N("ABCDEF+Foo"),
@@ -384,7 +389,8 @@ def type0_doc(enc: str, strings: Sequence[bytes], ros=("Adobe", "Identity", 0), 
     f: Dict[str, Any] = {"Type": N("Font"), "Subtype": N("Type0"), "BaseFont": N("ABCDEF+Foo"), "Encoding": encoding_obj(doc, enc, enc_spelling), "DescendantFonts": [doc.add(d)]}
     if tou is not None:
         f["ToUnicode"] = doc.add(Stream({}, tou))
-    content = b"BT /F1 %d Tf 16 700 Td " % FS + b" ".join(ser(HexStr(s)) + b" Tj" for s in strings) + b" ET"
+    ops = show_ops if show_ops is not None else b" ".join(ser(HexStr(s)) + b" Tj" for s in strings)
+    content = b"BT /F1 %d Tf 16 700 Td " % FS + ops + b" ET"
     return page_doc(content, {"F1": doc.add(f)}, doc=doc)
 
 
@@ -415,6 +421,13 @@ def compare_doc(pdf: bytes, expected: List[Dict[str, Any]], vertical: bool, sigb
         for e, x in zip(per_page[k], pages[k]):
             i += 1
             vert = e.get("vert", vertical)
+            if e.get("shift"):
+                # numbers of a TJ array since the previous glyph: the pen moves back by n/1000 * Tfs along the
+                # writing direction (ISO 32000-1 9.4.4: tx = (w0 - Tj/1000) Tfs, ty = (w1 - Tj/1000) Tfs)
+                if vert:
+                    py -= Fraction(e["shift"]) * FS / 1000
+                else:
+                    px -= Fraction(e["shift"]) * FS / 1000
             text, adv, m, bbox = x[0], x[1], x[2], x[3]
             if text != e["text"]:
                 viol.append(((classify("text", e, text) if classify else None) or f"{sigbase}:text:{e.get('tag','')}", i, e["text"], text, f"text of glyph {i} ({e.get('note','')})"))
@@ -441,7 +454,7 @@ def record_doc(st, fam: str, key, pdf: bytes, expected, vertical: bool, sigbase:
             st.viol_counts[sig] += 1  # counted, not stored
             continue
         st.violation(sig, {"family": "doc", "sub": fam, "desc": desc, "pdf": pdf, "vertical": vertical, "sigbase": sigbase, "index": i,
-                           "expected": [[e["text"], e["adv"], e.get("vx"), e.get("tag", ""), e.get("wtag", ""), e.get("note", ""), e.get("vert"), e.get("page", 0)] for e in expected]}, exp, ob, what)
+                           "expected": [[e["text"], e["adv"], e.get("vx"), e.get("tag", ""), e.get("wtag", ""), e.get("note", ""), e.get("vert"), e.get("page", 0), e.get("shift", 0)] for e in expected]}, exp, ob, what)
 
 
 # ------------------------------------------------------------------ tou family
@@ -1121,6 +1134,77 @@ def classify_shared(kind, e, got):
     return None
 
 
+# ------------------------------------------------------------------ TJ arrays with composite fonts
+TJ_FONTS = ["Identity-V", "UniJIS-UTF16-V", "90ms-RKSJ-V", "Identity-H", "90ms-RKSJ-H"]
+TJ_CODEC = {"UniJIS-UTF16-V": "utf-16-be", "90ms-RKSJ-V": "cp932", "90ms-RKSJ-H": "cp932"}
+TJ_ELEMS = ["S1", "S2", 250, -500]  # S1: two glyphs, S2: one glyph; a positive and a negative adjustment
+
+
+def tj_cases(tier: str):
+    n = BOUNDS[tier]["tj_elements"]
+    for r in range(1, n + 1):
+        for arr in itertools.product(range(len(TJ_ELEMS)), repeat=r):
+            if r == n and all(isinstance(TJ_ELEMS[i], str) for i in arr):
+                continue  # longest arrays without any number add nothing
+            for f in range(len(TJ_FONTS)):
+                for metrics in (0, 1):
+                    if r > 3 and (metrics == 1) != (f % 2 == 1):
+                        continue  # long arrays: alternate the metrics variant over the fonts
+                    yield ("tj", tuple(arr), f, metrics)
+
+
+def build_tj(arr, fi: int, metrics: int):
+    enc = TJ_FONTS[fi]
+    vertical = is_vertical_name(enc)
+    if enc.startswith("Identity"):
+        cids = [1, 2, 3]
+        codes = [c.to_bytes(2, "big") for c in cids]
+        ros = ("Adobe", "Identity", 0)
+        text = {c: "(cid:%d)" % c for c in cids}
+    else:
+        codes = [ch.encode(TJ_CODEC[enc]) for ch in "あア亜"]
+        cids = [ref_decode(enc, c)[0][0] for c in codes]
+        ros = ("Adobe", "Japan1", 2)
+        um = load_pickle("to-unicode-Adobe-Japan1")["CID2UNICHR_V" if vertical else "CID2UNICHR_H"]
+        text = {c: um.get(c, "(cid:%d)" % c) for c in cids}
+    extra: Dict[str, Any] = {}
+    if vertical:
+        w = {c: Fraction(-1000) for c in cids}
+        if metrics:
+            extra = {"W2": [cids[0], [-500, 250, 800]] + ([cids[1], cids[1], -700, 300, 900] if cids[1] != cids[0] else []), "DW2": [800, -900]}
+            w = {cids[0]: Fraction(-500), cids[1]: Fraction(-700), cids[2]: Fraction(-900)}
+            if cids[2] in (cids[0], cids[1]):
+                raise AssertionError("sample CIDs must be distinct")
+    else:
+        w = {c: Fraction(1000) for c in cids}
+        if metrics:
+            extra = {"W": [cids[0], [500], cids[1], cids[1], 700], "DW": 400}
+            w = {cids[0]: Fraction(500), cids[1]: Fraction(700), cids[2]: Fraction(400)}
+    parts = {"S1": [0, 1], "S2": [2]}
+    items = [TJ_ELEMS[i] for i in arr]
+    exp = []
+    pending = Fraction(0)
+    ops = bytearray(b"[")
+    for it in items:
+        if isinstance(it, str):
+            ops += ser(HexStr(b"".join(codes[k] for k in parts[it]))) + b" "
+            for k in parts[it]:
+                c = cids[k]
+                exp.append({"text": text[c], "adv": w[c] * FS / 1000, "shift": pending, "vert": vertical, "tag": "collection" if ros[1] != "Identity" else "none",
+                            "wtag": "TJ", "note": f"cid {c} after TJ adjustment {pending}"})
+                pending = Fraction(0)
+        else:
+            ops += b"%d " % it
+            pending += it
+    ops += b"] TJ "
+    # a following string makes a trailing adjustment observable
+    ops += b"[" + ser(HexStr(codes[2])) + b"] TJ " + ser(HexStr(codes[0])) + b" Tj"
+    exp.append({"text": text[cids[2]], "adv": w[cids[2]] * FS / 1000, "shift": pending, "vert": vertical, "wtag": "TJ", "note": f"first glyph of the next TJ, after trailing adjustment {pending}"})
+    exp.append({"text": text[cids[0]], "adv": w[cids[0]] * FS / 1000, "shift": 0, "vert": vertical, "wtag": "TJ", "note": "Tj after the arrays"})
+    pdf = type0_doc(enc, [], ros=ros, extra=extra, sub="CIDFontType0" if ros[1] != "Identity" else "CIDFontType2", show_ops=bytes(ops))
+    return pdf, exp, vertical
+
+
 def odd_cases():
     for enc in ("Identity-H", "Identity-V", "DLIdent-H"):
         for s in (b"\x00\x41\x00", b"\x00", b"\x00\x41\x00\x42\x43"):
@@ -1159,6 +1243,9 @@ def doc_case(c):
     if kind == "coll":
         pdf, exp, v = build_coll(c[1], c[2], c[3])
         return pdf, exp, v, "C07/collection", {"cmap": c[1], "codec": c[2], "collection": c[3]}, None
+    if kind == "tj":
+        pdf, exp, v = build_tj(c[1], c[2], c[3])
+        return pdf, exp, v, "C07/TJ-" + ("vertical" if v else "horizontal"), {"array": [TJ_ELEMS[i] for i in c[1]], "encoding": TJ_FONTS[c[2]], "metrics": c[3]}, None
     if kind == "onebyte":
         pdf, exp, v = build_onebyte(c[1], c[2], c[3])
         return pdf, exp, v, "C07/onebyte-identity", {"encoding": c[1], "tounicode": c[2], "widths": c[3]}, None
@@ -1184,6 +1271,7 @@ def all_doc_cases(tier: str) -> List[tuple]:
     out += list(coll_cases())
     out += list(odd_cases())
     out += list(onebyte_cases())
+    out += list(tj_cases(tier))
     return out
 
 
@@ -1311,6 +1399,8 @@ def replay(case):
                 if row[6] is not None:
                     ent["vert"] = row[6]
                 ent["page"] = row[7]
+            if len(row) > 8 and row[8]:
+                ent["shift"] = row[8]
             exp.append(ent)
         d = case["desc"]
         classify = None
